@@ -149,13 +149,13 @@ def grid_case(ctx, idx, rng):
 
 def large_case(ctx, idx, rng):
     n = int(rng.choice([20, 50, 120, 300]))
-    m = int(rng.integers(2, 25))
+    m = int(rng.integers(2, 25)) if idx % 3 else int(rng.integers(min(25, n), min(n, 96) + 1))      # every third case: long runs (m up to 96)
     cplx = bool(rng.random() < 0.5)
     spectrum = str(rng.choice(SPECTRA))
     start = str(rng.choice(['generic', 'real', 'invariant-rotated']))
     A, v = kr.make_case(rng, n, cplx, spectrum, start)
     A = A / max(1.0, np.sqrt(n) / 3)
-    ctx.case(('lanczos', 'large-n', spectrum, start, 'complex' if cplx else 'real'), sample={'n': n, 'm': m, 'spectrum': spectrum, 'start': start})
+    ctx.case(('lanczos', 'large-n', 'm>32' if m > 32 else 'm<=32', spectrum, start, 'complex' if cplx else 'real'), sample={'n': n, 'm': m, 'spectrum': spectrum, 'start': start})
     check_lanczos(ctx, A, v, m)
     G = rng.normal(size=(n, n)) + (1j * rng.normal(size=(n, n)) if cplx else 0)
     ctx.case(('arnoldi', 'large-n', 'general', 'complex' if cplx else 'real'), sample={'n': n, 'm': m})
@@ -178,7 +178,7 @@ SPEC = {
     'id': 'C14',
     'rule': ('grid: every (n, m) with 1<=n<=10, 1<=m<=n+5 x spectra (separated, degenerate, clustered, Gaussian) x starts (generic, real, '
              'structural / rotated invariant subspace, eigenvector) x real/complex, Lanczos on the Hermitian matrix and Arnoldi on a general or '
-             'the same matrix; large: n in {20,50,120,300}, m<=24; F6 cases n=m in {32,48,64}. The always-on relations (sizes, real alpha, '
+             'the same matrix; large: n in {20,50,120,300}, m<=24 and long runs m up to 96; F6 cases n=m in {32,48,64}. The always-on relations (sizes, real alpha, '
              'beta>0, unit norms, three-term recurrence, local orthogonality, Afunc call count, justified early return, full length when '
              'the independent re-orthogonalised Krylov dimension is >= m with margin) are demanded everywhere; and so are global '
              'orthonormality and V^H A V = T on the leading min(k, Krylov dimension) vectors (the conditioning indicator min beta_j|s_ji|/||T|| '
